@@ -75,9 +75,11 @@ def rule_idx_pos(ctx, cfg, F):
             if parent:
                 trp = Tracer(parent)
                 sers = [(b, t) for b, t in parent.calls() if strip_generics(t.get("callee") or "") == "serde::Serialize::serialize"]
+                any_index = any(r.kind == "call" for b, t in sers for r in trp.roots_of_operand(t["args"][0]))
                 for b, t in sers:
                     rs = trp.roots_of_operand(t["args"][0])
-                    ok = all((r.kind == "call" and (r.id == "std::thread::LocalKey::with" or _runs_closure(parent, r, f))) or (r.kind == "const" and r.id == USIZE_MAX) for r in rs) and any(r.kind == "call" for r in rs)
+                    # (one serialize call fed by a merged value, or one call per branch: the sentinel alone is fine where another call writes the index)
+                    ok = bool(rs) and all((r.kind == "call" and (r.id == "std::thread::LocalKey::with" or _runs_closure(parent, r, f))) or (r.kind == "const" and r.id == USIZE_MAX) for r in rs) and any_index
                     ty = _ser_int_type(t)
                     ser_types.add(ty)
                     if ok:
@@ -437,6 +439,13 @@ def rule_whole_buf(ctx, cfg, F):
                             if strip_generics(callee_name(t2)).startswith("bincode::serialize"):
                                 wrote = bool({r.key() for r in tr.roots_of_operand(t2["args"][0])} & vroots)
                         ok = full and wrote
+                    elif roots and not idx:
+                        # `&bytes` / `bytes.as_slice()` / `&*bytes`: the whole vector by deref, no slicing call on the way
+                        wv = set()
+                        for b2, t2 in f.calls():
+                            if strip_generics(callee_name(t2)).startswith("bincode::serialize"):
+                                wv |= {r.key() for r in tr.roots_of_operand(t2["args"][0])}
+                        ok = {r.key() for r in roots} <= wv and not any(n_.endswith("index") or n_.endswith("get") or "split" in n_ for n_ in chain_calls(f, a))
                     what = "&bytes[..] of the vector bincode wrote into"
                 if ok:
                     R.ok("%s passes %s" % (base, what), f.loc(b), cfg)
@@ -952,6 +961,8 @@ def rule_shm_sentinel(ctx, cfg, F):
         R.violate("anchor-missing:shm-serde", "IpcSharedMemory Serialize/Deserialize impls not found", config=cfg)
         return
     # serialize: path summaries: variant of self.os_shared_memory vs constant assigned to the serialised local
+    trs = Tracer(ser)
+
     def edge_fact(b, s, labs):
         for lab in labs:
             if lab["kind"] in ("variant", "variant_not") and lab.get("adt") == "std::option::Option" and lab.get("variant") and "|" not in lab["variant"]:
@@ -962,6 +973,10 @@ def rule_shm_sentinel(ctx, cfg, F):
             if st["s"] == "assign" and st["rv"]["r"] == "use" and op_const(st["rv"]["a"][0]) == USIZE_MAX:
                 yield ("wrote", "MAX")
         t = ser.term(b)
+        if t["t"] == "call" and strip_generics(t.get("callee") or "") == "serde::Serialize::serialize":
+            rs_ = trs.roots_of_operand(t["args"][0])
+            if rs_ and all(r.kind == "const" and r.id == USIZE_MAX for r in rs_):
+                yield ("wrote", "MAX")          # `usize::MAX.serialize(serializer)` written out in the empty branch
         if t["t"] == "call" and strip_generics(callee_name(t)) == "std::thread::LocalKey::with":
             yield ("wrote", "index")
         if t["t"] == "call" and strip_generics(t.get("callee") or "") in ("std::ops::FnOnce::call_once", "std::ops::FnMut::call_mut") and _closure_touches_table(F, ser, t, ("std::vec::Vec::push",)):
@@ -1236,7 +1251,7 @@ def _scaled(term):
         return e, k
 
 
-def fill_cover(f, L):
+def fill_cover(f, L, norm=None):
     """do the raw-slice writes of this function cover bytes [0, L) of one mapping contiguously?
     returns (ok, description).  Accepted shapes: one segment of L bytes at offset 0; or the word-wise split
     [0, (L/W)*W) in W-byte elements followed by [(L/W)*W, +L%W) in bytes."""
@@ -1254,6 +1269,8 @@ def fill_cover(f, L):
             if esz is None:
                 return False, "element size of a fill slice is unknown"
             cnt = expr_strip_blocks(ex.of_operand(t["args"][-1]))
+            if norm is not None:
+                cnt = norm(cnt)       # `mapping.length` of the mapping just made is the length it was asked for
             segs.append((repr(base), [_scaled(x) for x in terms], _scaled((cnt, esz))))
     if not segs:
         return False, "no fill found"
@@ -1320,7 +1337,7 @@ def rule_shm_len(ctx, cfg, F):
             if cf is f and lop is not None:
                 vals["len"] = _norm_mapped_len(F, expr_strip_blocks(ex.of_operand(lop)))
         if "len" in vals:
-            okc, why = fill_cover(f, vals["len"])
+            okc, why = fill_cover(f, vals["len"], norm=lambda e: _norm_mapped_len(F, e))
             if okc:
                 vals["fill"] = vals["len"]
                 R.ok("%s: the fill covers the mapping: %s" % (name, why), f.loc(0), cfg)
@@ -1344,6 +1361,26 @@ def rule_shm_sibling(ctx, cfg, F):
     tr = Tracer(f)
     fts = list(f.calls_to("libc::ftruncate"))
     R.count("create_shmem[%s]" % cfg)
+    if len(fts) == 0:
+        # the sizing moved to whoever creates the store: there the descriptor create_shmem returned is truncated to the caller's own length parameter, on every path
+        n = 0
+        for g in sorted(F.fns.values(), key=lambda x: x.path):
+            for cb, ct in g.calls():
+                if strip_generics(callee_name(ct)) != "platform::unix::create_shmem":
+                    continue
+                n += 1
+                trg, exg = Tracer(g), Expr(g)
+                gts = [(b2, t2) for b2, t2 in g.calls_to("libc::ftruncate") if any(r.kind == "call" and r.block == cb for r in trg.roots_of_operand(t2["args"][0]))]
+                le = expr_strip_blocks(exg.of_operand(gts[0][1]["args"][1])) if len(gts) == 1 else None
+                if len(gts) == 1 and le[0] == "param" and g.local_ty(le[1]) == "usize" and g.all_paths_pass(ct["to"], [gts[0][0]])[0]:
+                    R.ok("%s: ftruncate(created fd, its length parameter) follows create_shmem on every path" % g.path, g.loc(gts[0][0]), cfg)
+                else:
+                    R.violate("%s:store-size-not-length" % strip_generics(g.path), "the descriptor create_shmem returns is not truncated to %s's own length parameter on every path (%d ftruncate sites on it)" % (g.path, len(gts)),
+                              g.path, g.loc(cb), config=cfg)
+        R.count("store_creations[%s]" % cfg, n)
+        if not n:
+            R.violate("platform::unix::create_shmem:ftruncate-count", "no ftruncate in create_shmem and no caller found", f.path, f.loc(0), config=cfg)
+        return
     if len(fts) != 1:
         R.violate("platform::unix::create_shmem:ftruncate-count", "%d ftruncate calls" % len(fts), f.path, f.loc(0), config=cfg)
         return
